@@ -340,6 +340,9 @@ K_DESC_SEL = "desc_first_last_wrong_point"
 K_NULLROW = "all_null_row_kept_when_filter_is_on_another_field"
 K_SPLIT = "field_filter_applied_to_halves_of_row_completed_after_flush"
 K_NULLAGG = "aggregate_wrong_when_null_f_row_passes_filter_on_another_field"
+K_LAST_SEG = "last_reports_time_of_newer_row_of_multi_segment_file"
+K_GLIMIT = "limit_on_grouped_aggregate_changes_bucket_values"
+K_GLIMIT_SEL = "limit_on_tag_and_time_grouped_aggregate_selects_other_rows"
 
 
 def defect_model_kind(ds, st, layout, ans):
@@ -373,11 +376,20 @@ def defect_model_kind(ds, st, layout, ans):
         return K_DESC_SEL
     if fprev and st["gbtag"] and fits(M.relaxed_fill_expectation(ds, st)):
         return K_FILL_TAGS
+    if st["sel"] == "last" and not st["w"] and layout != "memory" and fits(M.relaxed_selector_expectation(ds, st, any_row_time=True)):
+        return K_LAST_SEG
     return None
 
 
-def meta_trigger_kind(ds, st, minority):
+def meta_trigger_kind(ds, st, minority, major_canon=None, minor_canons=()):
     """limit/offset on grouped queries (only compared across executions): name the known defect whose trigger is present."""
+    if M.is_agg(st) and st["w"] and major_canon is not None:
+        if not M.rows_not_in_unlimited_answer(_uncanon(major_canon), ds, st) and \
+                all(M.rows_not_in_unlimited_answer(_uncanon(c), ds, st) for c in minor_canons):
+            return K_GLIMIT
+        if st["gbtag"] and not M.rows_not_in_unlimited_answer(_uncanon(major_canon), ds, st) and \
+                not any(M.rows_not_in_unlimited_answer(_uncanon(c), ds, st) for c in minor_canons):
+            return K_GLIMIT_SEL
     if st["pred"] in ("F1", "F2", "TF") and ds.split_point() is not None and \
             all(x[0] in ("late", "late_flushed") for x in minority):
         return K_SPLIT
@@ -594,7 +606,7 @@ def do_run(tier, scratch, servers, t0):
             groups_ = sorted(by.items(), key=lambda kv: (-len(kv[1]), kv[0]))
             major = groups_[0]
             recs = [x + ("differs from the majority answer", c, False) for c, xs in groups_[1:] for x in xs]
-            kind = meta_trigger_kind(ds, st, [r[:5] for r in recs]) or \
+            kind = meta_trigger_kind(ds, st, [r[:5] for r in recs], major[0], [c for c, _ in groups_[1:]]) or \
                 dimension_kind(recs, [x for _, xs in groups_ for x in xs], [])
             detail = "%s on data set %s: %d different answers across configurations; majority (%d) %s; others: %s" % (
                 M.render(st, ds, "m"), ds.key(), len(by), len(major[1]), major[0][:300],
